@@ -2636,7 +2636,7 @@ func runC03(c *core.Ctx) {
 		}
 		tType := time.Now()
 		if c.Quick() {
-			perType := c.N(12, 0)
+			perType := c.N(10, 0)
 			if ct.perType > 0 {
 				perType = ct.perType
 			}
@@ -2646,7 +2646,7 @@ func runC03(c *core.Ctx) {
 					n = 1 + rng.Intn(200)
 				}
 				rows := genBatch(rng, ct, n)
-				runCase(c, ct, rows, randSplit(rng, n), "gen/"+ct.name, k < 2)
+				runCase(c, ct, rows, randSplit(rng, n), "gen/"+ct.name, k < 1)
 				if ti < 3 && k == 0 {
 					c.Sample(mkReplay(ct, rows.Slice(0, min(2, n)), nil))
 				}
